@@ -45,7 +45,9 @@ OPERANDS = [['n', 3], ['n', -2.5], ['n', 0], ['s', '7'], ['s', 'abc'],
             ['s', ''], ['b', True], ['b', False], ['z'], ['d', 43831],
             ['n', 1e10], ['s', '1e2'],
             # the ends of the number range: results may leave it
-            ['n', 1e308], ['n', -1.5e308], ['n', 5e-324], ['s', '1e308']]
+            ['n', 1e308], ['n', -1.5e308], ['n', 5e-324], ['s', '1e308'],
+            # TEXT that spells an error code is text, not an error
+            ['s', '#DIV/0!'], ['s', '#N/A'], ['s', '#REF!']]
 # formulas that YIELD each error in a cell
 YIELD = {'#DIV/0!': '=1/0', '#N/A': '=NA()', '#VALUE!': '="a"+1',
          '#NUM!': '=SQRT(-1)', '#REF!': '=#REF!', '#NAME?': '=#NAME?',
